@@ -21,6 +21,9 @@ CHECKS = {
  "C19": dict(technique="bounded exhaustive enumeration of rejected inputs x languages with an independent position/format oracle; cross-VM part by preemption-bounded schedule enumeration at hooked Parse points",
              text="Every token string up to length 3 (thorough 4) over the error alphabet, also behind multi-line / long-line / multi-byte prefixes, x 3 languages: each rejection's text is parsed and its offset, line, column, quoted line, caret and language are recomputed from the bytes. 2-3 VMs with different languages are run under every schedule (<=2 preemptions) at Parse-entry / before-grammar / shared-selector points and must reproduce their isolated messages.",
              note="Known findings (grammar/generator level, recorded in known_findings.jsonl): rule-specific messages ignore the language; an error located at a newline is reported as (next line, col 0).", ref="DESIGN.md §4 C19"),
+ "C18": dict(technique="bounded exhaustive enumeration of edit lists x spellings against the list being printed (reference model = the edit list itself)",
+             text="Every list of k<=2 edits (k=3 over a reduced alphabet) in every accepted spelling (8 name shapes x 6 value shapes x ':'/'='/direct x multiplier forms x computed x 4 list separators x with/without reason text) is run through the real st command; the callback log must equal the generated list exactly and RestInput must be exactly the reason.",
+             note="Spelling alphabet is finite (names/values listed in c18.go); one grammar quirk is a known finding (parenthesised value followed by a computed edit).", ref="DESIGN.md §4 C18"),
 }
 PENDING = {}
 def main():
